@@ -858,6 +858,7 @@ func TestC17(t *testing.T) {
 		t.Skip("child runs TestC17Child")
 	}
 	r := vcore.Start(t, "C17")
+	tStart := time.Now()
 	pl := &planner{r: r}
 	p := chains()[1].Inner().ScalarField()
 	pl.specialOK = hintTerminates(new(big.Int).Sub(p, big.NewInt(1))) && hintTerminates(new(big.Int).Sub(p, big.NewInt(2))) && hintTerminates(new(big.Int).Div(p, big.NewInt(3)))
@@ -917,6 +918,7 @@ func TestC17(t *testing.T) {
 		return ca.key() < cb.key()
 	})
 	r.Set("planned_cases", len(pl.cases))
+	fmt.Printf("C17 progress: %d cases planned after %.0fs\n", len(pl.cases), time.Since(tStart).Seconds())
 
 	// the dedicated non-termination probe runs concurrently in a killable child
 	var hangWG sync.WaitGroup
@@ -931,7 +933,9 @@ func TestC17(t *testing.T) {
 		fmt.Sscan(v, &workers)
 	}
 	vcore.Parallel(len(pl.cases), workers, func(i int) { pl.cases[i].run(r) })
+	fmt.Printf("C17 progress: cases done after %.0fs\n", time.Since(tStart).Seconds())
 	hangWG.Wait()
+	fmt.Printf("C17 progress: hang probe done after %.0fs\n", time.Since(tStart).Seconds())
 
 	for _, ch := range []string{"2chain", "emulated"} {
 		for _, s := range []string{"groth16", "plonk"} {
@@ -998,9 +1002,15 @@ func hangProbe(r *vcore.Run, specialOK bool) {
 		r.Inconclusive("hang-probe-benign-case-failed:" + msg)
 		return
 	}
-	wd := 40 * benign
+	// the child repeats exactly the benign work (cold start included); a run that
+	// is merely slow is not mistaken for the hang because the verdict also needs
+	// the SIGQUIT dump to show the evaluation inside eisenstein.HalfGCD
+	wd := 4 * benign
 	if wd < 3*time.Minute {
 		wd = 3 * time.Minute
+	}
+	if wd > 15*time.Minute {
+		wd = 15 * time.Minute
 	}
 	r.Set("hang_probe_benign_seconds", benign.Seconds())
 	r.Set("hang_probe_watchdog_seconds", wd.Seconds())
